@@ -102,6 +102,14 @@ def main():
                 r = run_paths(seq, cap, MemoryStore)
                 if r and len(violations) < 10:
                     violations.append({"what": "[paths] " + r})
+    # a wrapped store whose write / read fails once (natively; the same scenarios replay refuted obligations)
+    sys.path.insert(0, "/verif")
+    from replay import h_lru
+
+    evals += 9
+    r_ = h_lru.faulty_inner({}, {})
+    if r_.get("reproduced"):
+        violations.append({"what": "[faulty wrapped store] " + r_["detail"]})
     tmp = tempfile.mkdtemp(prefix="dds_b_lru_")
     try:
         c2 = [0]
@@ -134,7 +142,7 @@ def main():
     finally:
         shutil.rmtree(tmp, ignore_errors=True)
     print(json.dumps({
-        "scope": "all operation sequences of length <= %d over 2 keys x 3 operations x 4 capacities (MemoryStore), length 3 x 2 capacities (LocalFileStore); all sequences of length <= %d over 9 blob / path operations incl. a second writer on the wrapped store (MemoryStore, 2 capacities) and of length 3 on LocalFileStore" % (L, LP),
+        "scope": "all operation sequences of length <= %d over 2 keys x 3 operations x 4 capacities (MemoryStore), length 3 x 2 capacities (LocalFileStore); all sequences of length <= %d over 9 blob / path operations incl. a second writer on the wrapped store (MemoryStore, 2 capacities) and of length 3 on LocalFileStore; 9 histories with a wrapped store whose store_blob / sync_paths / fetch_blob fails once" % (L, LP),
         "evaluations": evals, "distinct_nontrivial": distinct, "exhaustive": True,
         "rule": "one case per (capacity, operation sequence); distinct = sequences of maximal length",
         "samples": samples, "violations": violations, "known_hits": [],
